@@ -23,7 +23,7 @@ pub fn scenarios() -> Vec<Scenario> {
             "every bundled example through its public constructor with tape-drawn size, queries, blowup, grinding, extension, folding and hasher: the honest proof verifies (and the example's wrong-input verification fails)",
             run_c01_examples,
             300,
-            30_000,
+            6_000,
         ),
         Scenario::new(
             "C06",
@@ -31,7 +31,7 @@ pub fn scenarios() -> Vec<Scenario> {
             "the deterministic bundled examples (fib2, fib8, mulfib2, mulfib8, fib_small, vdf, vdf-exempt, rescue) proved by the serial build (reference digests) and by the concurrent build on the simulated scheduler: context, commitments, OOD frame equal; whole proof when the nonce is equal",
             run_c06_examples,
             200,
-            15_000,
+            3_000,
         ),
     ];
     for s in v.iter_mut() {
